@@ -10,7 +10,7 @@ use proptest::prelude::*;
 use serde::{Deserialize, Serialize};
 
 pub const KINDS: [Kind; 9] = [Kind::Sma, Kind::Wma, Kind::Sd, Kind::Bb, Kind::Mad, Kind::Cci, Kind::Mfi, Kind::Min, Kind::Max];
-pub const REGIMES: [&str; 7] = ["walk", "alternate", "spikes", "plateaus", "sawtooth", "ramps", "quiet_after_spike"];
+pub const REGIMES: [&str; 8] = ["walk", "alternate", "spikes", "plateaus", "sawtooth", "ramps", "quiet_after_spike", "periodic_spikes"];
 
 #[derive(Clone, Debug, Serialize, Deserialize)]
 pub struct Case {
@@ -85,6 +85,16 @@ impl Gen {
                 let f = if down { 1.0 - f } else { f };
                 lo * 1000f64.powf(f.clamp(0.0, 1.0))
             }
+            7 => {
+                // a flat market with one identical spike exactly every `saw` inputs (an exchange's opening print, a
+                // scheduled fixing): with saw = n the spike always lands in the same ring slot and is always present
+                // exactly once in the window
+                if self.i % self.saw == self.saw / 2 {
+                    hi * 0.5
+                } else {
+                    lo * 3.0
+                }
+            }
             _ => {
                 // a quiet but not constant level (relative spread 1e-6 .. 1e-9) interrupted by rare visits to
                 // the top of the band and rare changes of level
@@ -106,6 +116,10 @@ impl Gen {
         let x = self.next();
         // plateaus: an unchanged price repeats the identical bar (exact typical-price ties, only the
         // volume varies), which is what exercises the tie branch of MFI / flat windows of CCI
+        if self.regime == 7 {
+            // one-price bars: identical prices give bit-identical typical prices
+            return RawBar { o: x, h: x, l: x, c: x, v: (1.0 + 999.0 * unit(&mut self.st)).round() };
+        }
         if self.regime == 3 {
             if let Some((px, pb)) = self.last_bar {
                 if px == x {
@@ -345,7 +359,7 @@ pub fn check_full(c: &Case, ctx: &mut Ctx, id: &str, pow2: bool, sign_only: bool
 const PERIODS: [usize; 8] = [1, 2, 3, 5, 14, 50, 200, 1000];
 
 fn strategy(maxlen: usize) -> BoxedStrategy<Case> {
-    ((0..KINDS.len()), period(1000), 0..7usize, -3.0f64..6.0, any::<u64>(), (maxlen / 4)..=maxlen, 0.0f64..1.0)
+    ((0..KINDS.len()), period(1000), 0..8usize, -3.0f64..6.0, any::<u64>(), (maxlen / 4)..=maxlen, 0.0f64..1.0)
         .prop_map(|(ki, n, regime, e, seed, len, su)| {
             let kind = KINDS[ki];
             let heavy = matches!(kind, Kind::Mad | Kind::Cci) && n > 64;
@@ -356,7 +370,7 @@ fn strategy(maxlen: usize) -> BoxedStrategy<Case> {
 }
 
 pub fn run(g: &mut Global) {
-    g.rule = "grid: 9 indicators (SMA, WMA, SD, BB, MAD, CCI, MFI, MIN, MAX) x periods {1,2,3,5,14,50,200,1000} x 5 regimes (random walk, alternating extremes of [m,1000m], spikes, plateaus, saw-tooth; two more in the ramps_and_quiet stage and the random stage: strictly monotone ramps across the band longer than the window, and a quiet non-constant level with rare visits to the top of the band) x band bases m, each one uninterrupted stream of 2e5 (quick) / 2e6 (thorough) inputs expanded from (VERIF_SEED, index); random: proptest (kind, period from the mixture to 1000, regime, m log-uniform in [1e-3,1e6], seed, length, saw period in 2..n+3). Oracle: at t <= 3n+50, at about 300 pseudo-randomly chosen later steps and at the end, double-double recomputation over the harness's own window vs the output within tau(t)*M (variance scale for SD/BB; tau*c*scale for CCI/MFI where c <= 1e6, MFI under the ambiguity rule); MIN/MAX exact; variance never negative or NaN at any step. A case is non-trivial if >= 100 sampled steps were well-conditioned; distinct by (kind, period, regime, base, seed, length, saw period).".into();
+    g.rule = "grid: 9 indicators (SMA, WMA, SD, BB, MAD, CCI, MFI, MIN, MAX) x periods {1,2,3,5,14,50,200,1000} x 5 regimes (random walk, alternating extremes of [m,1000m], spikes, plateaus, saw-tooth; two more in the ramps_and_quiet stage and the random stage: strictly monotone ramps across the band longer than the window, and a quiet non-constant level with rare visits to the top of the band; periodic_spikes: a flat market with an identical spike every n-1, n, n+1, 2n inputs) x band bases m, each one uninterrupted stream of 2e5 (quick) / 2e6 (thorough) inputs expanded from (VERIF_SEED, index); random: proptest (kind, period from the mixture to 1000, regime, m log-uniform in [1e-3,1e6], seed, length, saw period in 2..n+3). Oracle: at t <= 3n+50, at about 300 pseudo-randomly chosen later steps and at the end, double-double recomputation over the harness's own window vs the output within tau(t)*M (variance scale for SD/BB; tau*c*scale for CCI/MFI where c <= 1e6, MFI under the ambiguity rule); MIN/MAX exact; variance never negative or NaN at any step. A case is non-trivial if >= 100 sampled steps were well-conditioned; distinct by (kind, period, regime, base, seed, length, saw period).".into();
     g.assumptions = vec![
         "the stream elements are expanded from the generated seed with splitmix64 inside the check (a pure function of the case, so replay is exact; shrinking acts on length/period/regime, not on elements)".into(),
         "O(n)-per-step indicators (MAD, CCI) with n = 1000 run shorter streams in the quick tier".into(),
@@ -404,6 +418,26 @@ pub fn run(g: &mut Global) {
             let u = unit(&mut s);
             let base = 10f64.powf(-3.0 + 9.0 * u);
             Case { kind, n, regime: 4, base: X(base), seed: splitmix(&mut s), len: plen, saw: 2 + sawi % (n + 2) }
+        },
+        &check,
+    );
+    // a flat market with an identical spike every n-1, n, n+1 or 2n inputs (regime 7): a shortcut for "nothing
+    // changed" or a run-length test that looks at the wrong slot is wrong at every step of such a stream
+    const SK9: [Kind; 9] = [Kind::Sma, Kind::Wma, Kind::Sd, Kind::Bb, Kind::Mad, Kind::Cci, Kind::Mfi, Kind::Min, Kind::Max];
+    const SN: [usize; 8] = [2, 3, 4, 5, 7, 15, 17, 20];
+    g.exhaustive(
+        "periodic_spikes",
+        9 * 8 * 4 * 2,
+        &move |i| {
+            let base = [0.37f64, 85.18][(i % 2) as usize];
+            let r = i / 2;
+            let which = (r % 4) as usize;
+            let r = r / 4;
+            let n = SN[(r % 8) as usize];
+            let kind = SK9[(r / 8) as usize];
+            let saw = [n.saturating_sub(1).max(2), n.max(2), n + 1, 2 * n][which];
+            let mut s = seed ^ (i + 77).wrapping_mul(0xA0761D6478BD642F);
+            Case { kind, n, regime: 7, base: X(base), seed: splitmix(&mut s), len: 30_000, saw }
         },
         &check,
     );
